@@ -26,6 +26,12 @@ type Standin struct {
 }
 
 var propStandins = map[string][]Standin{
+	"C06": {{
+		Name: "tag-search", Pkg: "internal/index", TestFile: "search_standin_test.go", TestName: "TestC02Standin", OutEnv: "C02_OUT",
+		EnvQuick: []string{"C02_TAGS=1", "C02_ROUNDS=40", "C02_QUERIES=60"}, EnvThorough: []string{"C02_TAGS=1", "C02_ROUNDS=300", "C02_QUERIES=100"},
+		Bound:   "searches that use tag filters while tags are partly undecided (sequential: no job runs during a search): the search-oracle stand-in of C02 (populations of up to 9 stream ids over 1-3 index files, generated queries, sort keys, limits, pages) with three tags tag/ta, tag/tb, tag/tc per population - random decided-match sets, random undecided sets (with stale match bits under undecided streams), generated definitions of depth <= 2 that may name earlier tags - passed to SearchStreams as TagDetails; a tag filter must select a decided stream by its match bit and an undecided stream by the tag's definition, also under negation, in conjunctions of all three tags and through tags that name tags; 40 (quick) / 300 (thorough) populations x 60 / 100 queries. Not covered: interleavings of job completions with API calls (the property's main quantifier), imports, marks, converters",
+		Timeout: 30 * time.Minute,
+	}},
 	"C11": {{
 		Name: "tag-api", Pkg: "internal/index/manager", TestFile: "tags_standin_test.go", TestName: "TestC11Standin", OutEnv: "C11_OUT",
 		EnvQuick: []string{"C11_SEQS=150", "C11_LEN=7"}, EnvThorough: []string{"C11_SEQS=1500", "C11_LEN=9"},
